@@ -422,6 +422,7 @@ class Model:
         if k == "M":
             o["layers_lower"] = sorted({tag(q[1]) for q in E})
             o["layers_upper"] = sorted(tag(l) for l in self.layers_ever)
+            o["edge_md"] = {ce(q): cmeta(E[q][1]) for q in E}
             return o
         o["num_nodes"] = len(self.nodes)
         o["num_edges"] = len(E)
